@@ -25,7 +25,7 @@ LEVEL_TEXT = ('part (i) is complete over the rank-pattern space of n<=5 points; 
 LEVEL_NOTE = ('trusted: tau-b reference, reference samplers (self-tested against the mpmath h-function), scipy quad; '
               'cells below threshold are re-enumerated with K=200 before being reported')
 RULE = ('(i) every (tie pattern, weak order) n=2..5 x {open,closed}; (ii) family in {clayton,gumbel,frank} x tau in '
-        '{.3,.4,.5,.6,.7} x K datasets n=4000; non-trivial = tau defined (i) / every dataset (ii); distinct = distinct '
+        '{.3,.4,.5,.6,.7} x K datasets n=4000 | 9000; (iii) lattice tables of 24 000 - 40 000 rows (calibration; family recovered whenever every 7th / 10th row is); non-trivial = tau defined (i) / every dataset (ii); distinct = distinct '
         'dataset')
 ASSUMPTIONS = ['recovery is decided on the enumerated dataset alphabet only', 'VERIF_SEED only changes the sampler seeds']
 
@@ -64,6 +64,11 @@ def cases(tier, seed):
     # tables long enough that any thinning / blocking of the rows would show in tau and theta
     for fam, t in (('frank', 0.5), ('clayton', 0.4), ('frank', -0.3)):
         out.append(('large', fam, t, 24000, 0, 0))
+    # ... and in the FAMILY: a lattice sample of 30 000 / 40 000 rows at a clear tau must be recovered (a blocked tail-curve
+    # computation that drops or double-counts a block leaves tau and theta alone and only moves the choice)
+    for fam, t, n in (('clayton', 0.5, 30000), ('clayton', 0.7, 30000), ('gumbel', 0.5, 30000), ('gumbel', 0.7, 40000),
+                      ('frank', 0.5, 30000), ('clayton', 0.6, 40000)):
+        out.append(('large', fam, t, n, 1, 0))
     return out
 
 
@@ -220,9 +225,12 @@ def run_case(case):
         return r
     if kind == 'large':
         from mc.ref import samplers
-        _, fam, t, n, _, _ = case
+        _, fam, t, n, want_family, _ = case
         th = theta_for(fam, abs(t)) if fam != 'frank' else theta_for('frank', abs(t)) * (1 if t > 0 else -1)
         X = samplers.sample(fam, th, n, points=A.lattice(n + 1, 2)[1:])
+        if want_family:
+            # rows in an arbitrary (fixed) order: the lattice enumerates its points along the first coordinate
+            X = X[np.random.RandomState(5).permutation(n)]
         tref = K.tau_b(X[:, 0], X[:, 1])
         r.tr()
         r.ev()
@@ -230,6 +238,17 @@ def run_case(case):
         r.state(('large', fam, t, n))
         res = select_copula(X.copy())
         _calibrated(r, res, tref, case, f'{fam} lattice sample, n={n}, tau~{t}')
+        if want_family:
+            got = type(res).__name__.lower()
+            r.outcome(f'recover-large:{fam}->{got}')
+            # the same rows, first 4000 only, decide the reference answer of the unblocked procedure on this law
+            small = type(select_copula(X[:: max(1, n // 4000)].copy())).__name__.lower()
+            r.tr()
+            if got != fam and small == fam:
+                r.violation(f'C11:recovery-large:{fam}', f'select_copula on a {fam} lattice sample of {n} rows (tau~{t}) returns {got}; '
+                            f'every {max(1, n // 4000)}th row of the same table ({len(X[:: max(1, n // 4000)])} rows) is recovered as {small}',
+                            case=case)
+            r.hit('large-family')
         r.hit('large')
         r['sample'] = {'kind': 'large table', 'n': n, 'family': fam, 'tau': tref, 'selected': type(res).__name__}
         return r
